@@ -101,8 +101,11 @@ class Buffer:
         while self.data_len:
             message, end = self._find_message_in_buffer()
 
-            if not message and self.max_buffer_size_before_frontal_cleanup is not None:
-                if self.data_len > self.max_buffer_size_before_frontal_cleanup:
+            if not message:
+                if (
+                    self.max_buffer_size_before_frontal_cleanup is not None
+                    and self.data_len > self.max_buffer_size_before_frontal_cleanup
+                ):
                     self._cleanup_beginning()
                     continue
                 break
